@@ -142,14 +142,22 @@ func MakeProfile(prop string, seed uint64, tier string) *Profile {
 		p.Tag += "+yield"
 	}
 	forceBulk := os.Getenv("VERIF_FORCE_BULK") // targeted experiments only: "small" or "large"
-	if (prop == "C04" || prop == "C03") && (r.Chance(1, 16) || forceBulk != "") {
+	bulkOdds := 16
+	if prop == "C03" {
+		bulkOdds = 10
+	}
+	if (prop == "C04" || prop == "C03") && (r.Chance(1, bulkOdds) || forceBulk != "") {
 		p.Bulk = 5400 + r.Intn(1200)
 		p.PoolSize = 0
 		p.Tag += "+bulk"
 		if p.MaxCrashes == 0 {
 			p.MaxCrashes = 1
 		}
-		if (r.Chance(1, 3) && forceBulk != "small") || forceBulk == "large" {
+		largeOdds := 3
+		if prop == "C03" {
+			largeOdds = 2
+		}
+		if (r.Chance(1, largeOdds) && forceBulk != "small") || forceBulk == "large" {
 			p.Bulk = 400 + r.Intn(40)
 			p.BulkBytes = 48 * 1024
 			p.Tag += "-large"
